@@ -102,7 +102,79 @@ fn op_iter(line: &str, args: &[SExp]) -> CaseResult {
         IppValue::Collection(_) => "collection",
         _ => "scalar",
     };
-    CaseResult { line: line.into(), result: s, oracle: None, class: class.into() }
+    // the traversal is one sequence, however it is consumed: the provided methods of `Iterator` (which an
+    // implementation may override) must agree with repeated `next()`
+    let show = |e: &IppValue| {
+        let mut t = String::new();
+        show_value(e, &mut t);
+        t
+    };
+    let plain: Vec<String> = {
+        let mut p = vec![];
+        let mut it = (&v).into_iter();
+        while let Some(e) = it.next() {
+            p.push(show(e));
+            if p.len() > 100_000 {
+                break;
+            }
+        }
+        p
+    };
+    let mut oracle = None;
+    let len = plain.len();
+    if len <= 100_000 {
+        let lim = len + 3;
+        let collected: Vec<String> = (&v).into_iter().take(lim).map(show).collect();
+        if collected != plain {
+            oracle = Some(format!("collect() yields {} elements, repeated next() {}", collected.len(), len));
+        }
+        for k in 0..=len.min(3) {
+            for j in 0..3usize {
+                let mut it = (&v).into_iter();
+                for _ in 0..k {
+                    it.next();
+                }
+                let got = it.nth(j).map(show);
+                if got.as_ref() != plain.get(k + j) {
+                    oracle = Some(format!("after {} next() calls, nth({}) yields {:?}, the traversal's element #{} is {:?}", k, j, got, k + j, plain.get(k + j)));
+                }
+                let rest: Vec<String> = it.take(lim).map(show).collect();
+                let want: Vec<String> = plain.iter().skip(k + j + 1).cloned().collect();
+                if oracle.is_none() && rest != want {
+                    oracle = Some(format!("after {} next() calls and nth({}), {} elements remain, expected {}", k, j, rest.len(), want.len()));
+                }
+            }
+        }
+        {
+            let mut it = (&v).into_iter();
+            it.next();
+            let got: Vec<String> = it.skip(1).take(lim).map(show).collect();
+            let want: Vec<String> = plain.iter().skip(2).cloned().collect();
+            if oracle.is_none() && got != want {
+                oracle = Some(format!("next() then skip(1): {} elements, expected {}", got.len(), want.len()));
+            }
+            let mut it = (&v).into_iter();
+            it.next();
+            let got: Vec<String> = it.step_by(2).take(lim).map(show).collect();
+            let want: Vec<String> = plain.iter().skip(1).step_by(2).cloned().collect();
+            if oracle.is_none() && got != want {
+                oracle = Some(format!("next() then step_by(2): {:?}…, expected {:?}…", got.iter().take(3).collect::<Vec<_>>(), want.iter().take(3).collect::<Vec<_>>()));
+            }
+            let cnt = (&v).into_iter().take(lim).count();
+            if oracle.is_none() && cnt != len {
+                oracle = Some(format!("count() = {}, the traversal has {} elements", cnt, len));
+            }
+            let last = (&v).into_iter().take(lim).last().map(show);
+            if oracle.is_none() && last.as_ref() != plain.last() {
+                oracle = Some("last() is not the last element of the traversal".into());
+            }
+            let (lo, hi) = (&v).into_iter().size_hint();
+            if oracle.is_none() && (lo > len || hi.map(|h| h < len).unwrap_or(false)) {
+                oracle = Some(format!("size_hint() = ({}, {:?}) excludes the actual length {}", lo, hi, len));
+            }
+        }
+    }
+    CaseResult { line: line.into(), result: s, oracle, class: class.into() }
 }
 
 /// `ready MSG`
